@@ -284,6 +284,10 @@ impl VrlValueArithmetic for Value {
         use Value::{Float, Integer};
 
         match self {
+            // Two integers are compared exactly; converting both to `f64` first would make
+            // integers beyond 2^53 that differ only in their low bits compare equal.
+            Integer(lhv) if matches!(rhs, Integer(_)) => matches!(rhs, Integer(rhv) if lhv == rhv),
+
             Integer(lhv) => rhs.try_into_f64().is_ok_and(|rhv| *lhv as f64 == rhv),
 
             Float(lhv) => rhs.try_into_f64().is_ok_and(|rhv| lhv.into_inner() == rhv),
